@@ -78,8 +78,8 @@ CRASH_PROFILES = {
                 expand_next=(4, (5, 1)), depth=(2, 3), bin_jobs=(2, 6)),
     "C02": dict(consts=dict(MaxIdx=6, Starts={1}, MaxBatch=2, Sizes={1, 2}, MaxOps=3, Keys={1}, Vals={0, 2},
                             WithBad=False, WithReopen=False, WithStable=False, MinOps=3),
-                n=(4, 14), geoms=((512,), (128, 512)), per_run=((200, 48, 16), (1000, 120, 40)),
-                expand_next=((4, 1), (8, 1)), depth=(3, 3), bin_jobs=(1, 4), chain=True, chain_cap=(8, 24)),
+                n=(4, 12), geoms=((512,), (128, 512)), per_run=((200, 48, 16), (600, 40, 16)),
+                expand_next=((4, 1), (6, 1)), depth=(3, 3), bin_jobs=(1, 3), chain=True, chain_cap=(8, 16)),
     "C03": dict(consts=dict(MaxIdx=7, Starts={1, 4}, MaxBatch=2, Sizes={1, 2}, MaxOps=4, Keys={1}, Vals={0, 2},
                             WithBad=False, WithReopen=True, WithStable=False, MinOps=4),
                 n=(6, 20), geoms=((64, 96), (64, 96, 128)), per_run=((300, 40), (1000, 100, 40)),
